@@ -91,3 +91,19 @@ Example C17_nonvacuous :
   true_positions mask = [[1; 0]; [2; 0]; [2; 1]] /\ data (state_indexer r) = [-1; 0; 1]%Z /\
   segment_ids_r r = [0; 1; 1] /\ num_segments_r r = 2.
 Proof. vm_compute. repeat split. Qed.
+
+(* ---- about the regenerated glue of create_state_choice_space (Gen/StateSpaceGlue.v) ------------- *)
+From LCM Require Import Gen.ChoiceAxes Gen.StateSpaceGlue Proofs.C05_SpaceGlue.
+(* the filters are evaluated at the period the space is built for; the mask and the combination grid  *)
+(* are built over the same variables in the same order; a state indexer exists iff there is at least   *)
+(* one filter-restricted state                                                                          *)
+Theorem C17_code_space_glue : forall (vi0 : list varinfo) (period : nat) (is_last_period : bool),
+  let plan := create_state_choice_space_plan vi0 period is_last_period in
+  filters_at_period plan = period /\
+  sparse_subset plan = grid_subset plan /\
+  forall n, n_sparse_states plan = Some n -> (has_state_indexer plan = true <-> (1 <= n)%nat).
+Proof.
+  intros vi0 period is_last_period plan. split; [reflexivity|split; [reflexivity|]].
+  exact (indexer_exists_iff_a_sparse_state vi0 period is_last_period).
+Qed.
+Print Assumptions C17_code_space_glue.
